@@ -303,7 +303,7 @@ class C13(Check):
     PROBES = ('clock_backwards_while_running', 'illegal_call',
               'split_after_resume', 'maximum_clamped', 'expired_true',
               'leftover_zero', 'watch_transported', 'transport_unsupported',
-              'clock_failure_not_propagated')
+              'clock_failure_not_propagated', 'call_on_second_watch')
 
     def setup(self):
         core.import_sut()
@@ -350,11 +350,18 @@ class C13(Check):
             k = xrng.randrange(len(ops))
             if ops[k][0] != 'transport':
                 ops[k] = [ops[k][0], ops[k][1], 'clock_fails']
+        case2 = {}
+        if xrng.random() < 0.1:
+            # a second watch alive at the same time: what is done to one
+            # must not show in the other
+            case2['duration2'] = xrng.choice(DURATIONS)
+            ops = [(list(o) + [None] * (3 - len(o)) + [1])
+                   if xrng.random() < 0.45 else o for o in ops]
         crng = st('clock')
         pattern = crng.choice(PATTERNS)
-        return {'duration': st('config').choice(DURATIONS),
-                'pattern': pattern, 'steps': gen_steps(crng, pattern),
-                'ops': ops}
+        return dict({'duration': st('config').choice(DURATIONS),
+                     'pattern': pattern, 'steps': gen_steps(crng, pattern),
+                     'ops': ops}, **case2)
 
     def execute(self, case):
         log = core.EventLog()
@@ -377,14 +384,22 @@ class C13(Check):
         del HANDED_OUT[:]
         CALLS[0] = 0
         try:
-            watch = tu.StopWatch(duration=case['duration'])
-            model = Model(case['duration'])
-            resumed = False
+            # one watch, or two alive at once (each call names its watch)
+            durs = [case['duration']]
+            if 'duration2' in case:
+                durs.append(case['duration2'])
+            watches = [tu.StopWatch(duration=d) for d in durs]
+            models = [Model(d) for d in durs]
+            resumeds = [False for _d in durs]
             for i, item in enumerate(case['ops']):
                 op, arg = item[0], item[1]
+                wi = item[3] if len(item) > 3 and item[3] < len(durs) else 0
+                if wi:
+                    bump(pr, 'call_on_second_watch')
+                watch, model, resumed = watches[wi], models[wi], resumeds[wi]
                 if op == 'transport':
                     try:
-                        watch = transport(watch, arg)
+                        watch = watches[wi] = transport(watch, arg)
                         bump(pr, 'watch_transported')
                     except Exception:
                         # this tree's watch does not travel that way
@@ -445,7 +460,7 @@ class C13(Check):
                 if got[0] == 'err':
                     continue
                 if op == 'resume':
-                    resumed = True
+                    resumed = resumeds[wi] = True
                 if op == 'split' and resumed:
                     bump(pr, 'split_after_resume')
                 gv, wv = got[1], want[1]
